@@ -60,9 +60,10 @@ def long_worker(a):
             events.append({"t": "disconnect", "id": cid})
             live.pop(cid, None)
     events.append({"t": "stats"})
-    s = proto.Session(b, cfg, leaks=True)
+    # sock: over ONE socket that is the daemon's standard input and output, the reader falling behind (the way an IRC server runs it)
+    s = proto.Session(b, cfg, leaks=True, transport="socketpair" if a.get("sock") else None)
     try:
-        outs = s.d.steps([proto.render(e) for e in events])
+        outs = s.d.steps([proto.render(e) for e in events], lazy=bool(a.get("sock")))
         s.trace.steps = list(zip(events, outs))
         res = s.finish()
     except Exception as ex:
@@ -72,6 +73,11 @@ def long_worker(a):
             s.kill()
             raise
         s.trace.steps = []
+        r = prun.post(s, b, cfg, PROPS, seed, do_shrink=False)
+        if not r["crash"]:
+            # the acknowledgements did not all arrive within the watchdog time although the daemon exits cleanly: nothing was judged
+            r["hung"] = "%s: %s" % (type(ex).__name__, str(ex)[:200])
+        return r
     return prun.post(s, b, cfg, PROPS, seed, do_shrink=False)
 
 
@@ -217,10 +223,13 @@ def run(chk, tier, scale=1.0):
     for rs in vcommon.pmap(pcommon.script_worker, pcommon.collision_jobs(b, chk.seed, PROPS, int((120 if tier == "quick" else 3000) * scale))):
         prun.fold(chk, "C10", rs, crash_is_violation=True)
     longs = [dict(build=b, seed=chk.seed * 77 + k, n=int((200000 if tier == "quick" else 2000000) * scale) // (1 if k == 0 else 4),
-                  nconc=(500 if tier == "quick" else 5000) // (1 if k == 0 else 10)) for k in range(1 if tier == "quick" else 4)]
+                  nconc=(500 if tier == "quick" else 5000) // (1 if k == 0 else 10), sock=(k % 2 == 1)) for k in range(2 if tier == "quick" else 4)]
     timers = [dict(build=b, seed=chk.seed * 99 + k, rounds=2) for k in range(4 if tier == "quick" else 64)]
     lres = vcommon.pmap(long_worker, longs) if longs else []
     prun.fold(chk, "C10", lres, crash_is_violation=True)
+    for r in lres:
+        if r.get("hung"):
+            chk.inconc("a long pipelined history was not acknowledged to its end within the watchdog time (%s); nothing judged" % r["hung"])
     chk.count("long_history_events", sum(r["nsteps"] for r in lres))
     tres = vcommon.pmap(timer_worker, timers)
     prun.fold(chk, "C10", tres, crash_is_violation=True)
